@@ -87,4 +87,164 @@ ComposeVerdict(c) ==
   LET first == Sel(c.a, c.n)
   IN IF Sel(c.out, c.n) # Compose(first, Sel(c.b, Len(first))) THEN "composed-selection-differs" ELSE "ok"
 
+(***************************************************************************)
+(* Grids                                                                   *)
+(***************************************************************************)
+GridsOf(shape) ==
+  CASE Len(shape) = 0 -> {<<>>}
+    [] Len(shape) = 1 -> {<<a>> : a \in Chunkings(shape[1])}
+    [] Len(shape) = 2 -> {<<a, b>> : a \in Chunkings(shape[1]), b \in Chunkings(shape[2])}
+    [] Len(shape) = 3 -> {<<a, b, c>> : a \in Chunkings(shape[1]), b \in Chunkings(shape[2]), c \in Chunkings(shape[3])}
+ShapeOfGrid(g) == [a \in 1..Len(g) |-> SumSeq(g[a])]
+
+(***************************************************************************)
+(* C15 rechunk plans                                                       *)
+(***************************************************************************)
+\* configuration tuples <<itemsize, threshold, block-size limit (bytes), degree limit>>
+RechunkShapes(p) ==
+  CASE p = "q1d" -> {<<n>> : n \in 1..6}
+    [] p = "q2d" -> {<<2, 3>>, <<3, 4>>, <<4, 4>>, <<1, 5>>, <<5, 2>>}
+    [] p = "t1d" -> {<<n>> : n \in 1..8}
+    [] p = "t2d" -> {<<a, b>> : a \in 1..5, b \in 1..5}
+    [] p = "t3d" -> {<<2, 3, 3>>, <<3, 2, 4>>, <<2, 2, 5>>}
+RechunkCfgs(p) ==
+  CASE p \in {"q1d"} -> {<<8, 4, 64, 100>>, <<1, 1, 8, 2>>, <<8, 32, 8, 3>>}
+    [] p \in {"q2d"} -> {<<8, 4, 64, 100>>, <<1, 1, 8, 100>>, <<8, 1, 8, 100>>, <<8, 2, 1024, 100>>, <<1, 32, 4, 100>>, <<8, 1, 64, 2>>}
+    [] p \in {"t1d", "t2d", "t3d"} ->
+         {<<i, t, l, d>> : i \in {1, 8}, t \in {1, 2, 4, 32}, l \in {8, 64, 1024}, d \in {2, 3, 100}}
+DomRechunk(p) ==
+  UNION {{<<old, new, cfg>> : old \in GridsOf(sh), new \in GridsOf(sh), cfg \in RechunkCfgs(p)} : sh \in RechunkShapes(p)}
+
+\* c: [old, new, itemsize, threshold, limit, degree, out |-> [plan, cw]]
+\*  plan : sequence of grids;  cw[axis][newblock] : sequence of <<oldblock, lo, hi>>
+StepWithinBudget(step, old, new, itemsize, limit) ==
+  \/ itemsize * MaxBlockElems(step) <= limit
+  \/ MaxBlockElems(step) <= Max2(MaxBlockElems(old), MaxBlockElems(new))
+
+RechunkPlanVerdict(c) ==
+  LET plan == c.out.plan
+      shape == ShapeOfGrid(c.old)
+  IN IF Len(plan) < 1 THEN "empty-plan"
+     ELSE IF plan[Len(plan)] # c.new THEN "plan-does-not-end-in-new-chunks"
+     ELSE IF \E s \in 1..Len(plan) : ~IsGridOf(plan[s], shape) THEN "step-is-not-a-chunking-of-the-shape"
+     ELSE IF \E s \in 1..Len(plan) : ~StepWithinBudget(plan[s], c.old, c.new, c.itemsize, c.limit)
+          THEN "step-exceeds-block-budget"
+     ELSE IF Len(c.out.cw) # Len(c.old) THEN "crosswalk-rank"
+     ELSE LET bad == {a \in 1..Len(c.old) : CrosswalkVerdict(c.old[a], c.new[a], c.out.cw[a]) # "ok"}
+          IN IF bad # {} THEN CrosswalkVerdict(c.old[CHOOSE a \in bad : TRUE], c.new[CHOOSE a \in bad : TRUE],
+                                                c.out.cw[CHOOSE a \in bad : TRUE])
+             ELSE IF \E a \in 1..Len(c.old) : c.out.cw[a] # Crosswalk(c.old[a], c.new[a]) THEN "crosswalk-differs-from-unique-tiling"
+             ELSE "ok"
+
+DomMerge(nmax) == UNION {UNION {{<<c, k>> : k \in 1..Len(c)} : c \in Chunkings(n)} : n \in 1..nmax}
+MergeVerdict(c) ==
+  IF SumSeq(c.out) # SumSeq(c.c) THEN "sum-changed"
+  ELSE IF Len(c.out) > c.k THEN "too-many-chunks"
+  ELSE IF \E i \in 1..Len(c.out) : c.out[i] <= 0 THEN "non-positive-chunk"
+  ELSE IF ~Refines(c.c, c.out) THEN "merge-cuts-a-chunk"
+  ELSE "ok"
+
+(***************************************************************************)
+(* C16 chunk normalisation                                                 *)
+(***************************************************************************)
+\* per-axis spec <<kind, value>> : 0 uniform int c | 1 -1 | 2 None | 3 "auto" | 4 explicit chunking | 5 byte string
+UniformChunks(n, c) ==
+  IF n = 0 THEN <<0>>
+  ELSE [i \in 1..CeilDiv(n, c) |-> IF i * c <= n THEN c ELSE n - (i - 1) * c]
+
+AxisSpecs(n, withauto) ==
+  {<<0, c>> : c \in 1..(n + 1)} \cup {<<1, 0>>, <<2, 0>>} \cup {<<4, c>> : c \in Chunkings(n)}
+  \cup (IF withauto THEN {<<3, 0>>, <<5, 0>>} ELSE {})
+
+NormShapes(p) ==
+  CASE p = "q" -> {<<n>> : n \in 0..6} \cup {<<0, 3>>, <<2, 3>>, <<4, 3>>, <<1, 5>>}
+    [] p = "t" -> {<<n>> : n \in 0..8} \cup {<<a, b>> : a \in 0..4, b \in 0..5} \cup {<<2, 3, 2>>, <<3, 0, 2>>}
+\* <<itemsize, limit bytes>>
+NormCfgs(p) == CASE p = "q" -> {<<1, 8>>, <<8, 64>>, <<4, 8>>} [] p = "t" -> {<<i, l>> : i \in {1, 4, 8}, l \in {8, 64, 512}}
+SpecsOf(shape) ==
+  CASE Len(shape) = 1 -> {<<a>> : a \in AxisSpecs(shape[1], TRUE)}
+    [] Len(shape) = 2 -> {<<a, b>> : a \in AxisSpecs(shape[1], TRUE), b \in AxisSpecs(shape[2], TRUE)}
+    [] Len(shape) = 3 -> {<<a, b, c>> : a \in AxisSpecs(shape[1], TRUE), b \in AxisSpecs(shape[2], TRUE) , c \in {<<3, 0>>, <<1, 0>>, <<0, 1>>}}
+HasAuto(spec) == \E a \in 1..Len(spec) : spec[a][1] \in {3, 5}
+\* previous_chunks: 0 = none, otherwise a grid (only offered when the spec has an auto axis)
+PrevOf(shape, spec) == IF HasAuto(spec) /\ \A a \in 1..Len(shape) : shape[a] > 0 THEN {<<>>} \cup GridsOf(shape) ELSE {<<>>}
+DomNormChunks(p) ==
+  UNION {UNION {{<<sh, sp, cfg, prev>> : cfg \in (IF HasAuto(sp) THEN NormCfgs(p) ELSE {<<8, 64>>}), prev \in PrevOf(sh, sp)}
+                : sp \in SpecsOf(sh)} : sh \in NormShapes(p)}
+
+\* c: [shape, spec, itemsize, limit, prev, out |-> [raised, chunks]]
+NormChunksVerdict(c) ==
+  IF c.out.raised = 1 THEN "ok"
+  ELSE LET o == c.out.chunks
+           r == Len(c.shape)
+           auto == {a \in 1..r : c.spec[a][1] \in {3, 5}}
+           fixedprod == c.itemsize * ProdSeq([a \in 1..r |-> IF a \in auto THEN 1 ELSE MaxSeq(o[a])])
+           allprod == c.itemsize * ProdSeq([a \in 1..r |-> MaxSeq(o[a])])
+       IN IF Len(o) # r THEN "wrong-number-of-axes"
+          ELSE IF \E a \in 1..r : Len(o[a]) = 0 THEN "empty-tuple-for-an-axis"
+          ELSE IF \E a \in 1..r : ~IsChunking(o[a], c.shape[a]) THEN "axis-chunks-not-a-valid-chunking"
+          ELSE IF \E a \in 1..r : c.spec[a][1] = 0 /\ o[a] # UniformChunks(c.shape[a], c.spec[a][2]) THEN "uniform-size-not-respected"
+          ELSE IF \E a \in 1..r : c.spec[a][1] \in {1, 2} /\ o[a] # <<c.shape[a]>> THEN "full-axis-not-single-chunk"
+          ELSE IF \E a \in 1..r : c.spec[a][1] = 4 /\ o[a] # c.spec[a][2] THEN "explicit-chunks-changed"
+          ELSE IF auto # {} /\ fixedprod <= c.limit /\ allprod > c.limit THEN "auto-block-exceeds-byte-limit"
+          ELSE "ok"
+
+(***************************************************************************)
+(* C17 chunk unification                                                   *)
+(***************************************************************************)
+\* operand: <<grid, labels, itemsize>>  (labels: sequence of index labels, one per axis)
+\* presets give families of operand tuples
+Opnd(g, l, i) == <<g, l, i>>
+G1(a) == <<a>>
+G2(a, b) == <<a, b>>
+One == <<1>>
+UnifyDom(p) ==
+  CASE p = "q" ->
+         \* two / three 1-D operands on one label; 2-D with 1-D broadcast; size-1 axes
+         UNION {{<<Opnd(G1(a), <<1>>, i1), Opnd(G1(b), <<1>>, 8)>> : a \in Chunkings(n), b \in Chunkings(n), i1 \in {1, 8}} : n \in 1..6}
+         \cup {<<Opnd(G2(a, b), <<1, 2>>, 8), Opnd(G1(c), <<2>>, 8)>> : a \in Chunkings(3), b \in Chunkings(4), c \in Chunkings(4)}
+         \cup {<<Opnd(G2(a, b), <<1, 2>>, 8), Opnd(G2(c, One), <<1, 2>>, 1)>> : a \in Chunkings(4), b \in Chunkings(3), c \in Chunkings(4)}
+         \cup {<<Opnd(G1(a), <<1>>, 8), Opnd(G1(b), <<1>>, 8), Opnd(G1(c), <<1>>, 1)>> : a \in Chunkings(5), b \in Chunkings(5), c \in Chunkings(5)}
+    [] p = "t" ->
+         UNION {{<<Opnd(G1(a), <<1>>, i1), Opnd(G1(b), <<1>>, i2)>> : a \in Chunkings(n), b \in Chunkings(n), i1 \in {1, 8}, i2 \in {1, 8}} : n \in 1..8}
+         \cup {<<Opnd(G2(a, b), <<1, 2>>, i1), Opnd(G1(c), <<2>>, 8)>> : a \in Chunkings(4), b \in Chunkings(5), c \in Chunkings(5), i1 \in {1, 8}}
+         \cup {<<Opnd(G2(a, b), <<1, 2>>, 8), Opnd(G2(c, One), <<1, 2>>, i2)>> : a \in Chunkings(5), b \in Chunkings(4), c \in Chunkings(5), i2 \in {1, 8}}
+         \cup {<<Opnd(G2(a, b), <<1, 2>>, 8), Opnd(G2(c, d), <<2, 1>>, 8)>> : a \in Chunkings(4), b \in Chunkings(3), c \in Chunkings(3), d \in Chunkings(4)}
+         \cup {<<Opnd(G1(a), <<1>>, 8), Opnd(G1(b), <<1>>, 8), Opnd(G1(c), <<1>>, 1)>> : a \in Chunkings(6), b \in Chunkings(6), c \in Chunkings(6)}
+UnifyPolicies == {"auto", "coarse", "refine"}
+UnifyLimits(p) == CASE p = "q" -> {16, 512} [] p = "t" -> {16, 64, 4096}
+DomUnify(p) == {<<ops, pol, lim>> : ops \in UnifyDom(p), pol \in UnifyPolicies, lim \in UnifyLimits(p)}
+
+\* c: [ops (seq of [grid, labels, itemsize]), policy, limit, out |-> [raised, common (seq of <<label, chunks>>), grids (seq)]]
+CommonOf(common, lab) == common[CHOOSE k \in 1..Len(common) : common[k][1] = lab][2]
+UnifyVerdict(c) ==
+  IF c.out.raised = 1 THEN "ok"
+  ELSE LET n == Len(c.ops)
+           shp(i) == ShapeOfGrid(c.ops[i].grid)
+           bcast(i, a) == shp(i)[a] = 1
+       IN IF Len(c.out.grids) # n THEN "operand-count"
+          ELSE IF \E i \in 1..n : ~IsGridOf(c.out.grids[i], shp(i)) THEN "result-not-a-chunking-of-the-operand-shape"
+          ELSE IF \E i \in 1..n : \E a \in 1..Len(shp(i)) :
+                    ~bcast(i, a) /\ c.out.grids[i][a] # CommonOf(c.out.common, c.ops[i].labels[a])
+               THEN "operand-not-on-the-common-layout"
+          ELSE IF c.policy = "refine" /\ \E i \in 1..n : \E a \in 1..Len(shp(i)) : ~Refines(c.out.grids[i][a], c.ops[i].grid[a])
+               THEN "refine-policy-merged-blocks"
+          ELSE IF \E i \in 1..n :
+                    c.ops[i].itemsize * MaxBlockElems(c.out.grids[i]) > Max2(c.limit, c.ops[i].itemsize * MaxBlockElems(c.ops[i].grid))
+               THEN "block-inflated-beyond-limit"
+          ELSE "ok"
+
+(***************************************************************************)
+(* C27 moved fraction                                                      *)
+(***************************************************************************)
+DomMoved(nmax) == UNION {{<<a, b>> : a \in Chunkings(n), b \in Chunkings(n)} : n \in 1..nmax}
+\* out: [num, den, exact] (value = num/den; exact = 1 iff the float was exactly that rational)
+MovedVerdict(c) ==
+  IF c.out.den <= 0 THEN "bad-denominator"
+  ELSE IF c.out.num < 0 THEN "negative-fraction"
+  ELSE IF c.out.num > c.out.den THEN "fraction-above-one"
+  ELSE IF c.src = c.dst /\ c.out.num # 0 THEN "identical-layouts-move-bytes"
+  ELSE IF Refines(c.dst, c.src) /\ c.out.num # 0 THEN "pure-split-moves-bytes"
+  ELSE "ok"
+
 =============================================================================
